@@ -237,7 +237,69 @@ fn run_alias(rep: &Report) {
     rep.count("byte-register aliasing cases (8 registers x all 2^16 parent values)", 8 * 65536);
 }
 
+/// whole programs: data labels defined under several `set` directives (segments repeated, interleaved, overlapping),
+/// every label read, written and read again through `byte/word <label>` with DS on the label's segment; registers
+/// accumulate what was read. Judged by the reference interpreter through replica and binary (C08's comparison):
+/// a label must address the cell its own definition filled.
+fn run_label_programs(rep: &Report, n: usize, core: bool, seed: u64) {
+    use crate::prog::{DataDef, DataItem, Item, Program, DK};
+    par_for(n, 1, |i| {
+        let mut rng = Rng::new(seed).fork(0xC04_9000 + i as u64);
+        let pool: [u16; 5] = [0, 0x20, 0x20, 0x1000, 0x21];
+        let mut data = Vec::new();
+        let mut labels: Vec<(String, bool, u16)> = Vec::new(); // name, word, segment
+        let mut seg = 0u16;
+        let ndef = 2 + rng.below(7);
+        for k in 0..ndef {
+            if (k == 0 && rng.chance(1, 2)) || (k > 0 && rng.chance(2, 5)) {
+                seg = *rng.pick(&pool);
+                data.push(DataItem::Set(seg));
+            }
+            let word = rng.chance(1, 2);
+            let name = format!("q{}", k);
+            let kind = if rng.chance(1, 4) { DK::Fill(0x30 + k as u16, 1 + rng.below(5) as u16) } else { DK::Num(if word { 0x1101u16.wrapping_mul(k as u16 + 1) } else { 0x11 * (k as u16 + 1) }) };
+            data.push(DataItem::Def(DataDef { label: Some(name.clone()), word, kind }));
+            labels.push((name, word, seg));
+        }
+        let ins = |x: Ins| Item::Ins(x);
+        let mov16 = |r: R16, v: u16| Item::Ins(Ins::Mov(Loc::R16(r), Src::Imm(v)));
+        let mut items = vec![Item::Label("start".into()), mov16(R16::SI, 0), mov16(R16::DI, 0)];
+        for pass in 0..3 {
+            for (k, (name, word, sg)) in labels.iter().enumerate() {
+                items.push(mov16(R16::AX, *sg));
+                items.push(ins(Ins::Mov(Loc::SR(SR::DS), Src::Loc(Loc::R16(R16::AX)))));
+                if pass == 1 {
+                    if *word {
+                        items.push(ins(Ins::Mov(Loc::Label(W::W, name.clone()), Src::Imm(0xA000 + k as u16))));
+                    } else {
+                        items.push(ins(Ins::Mov(Loc::Label(W::B, name.clone()), Src::Imm(0xA0 + k as u16))));
+                    }
+                } else if *word {
+                    items.push(ins(Ins::Mov(Loc::R16(R16::BX), Src::Loc(Loc::Label(W::W, name.clone())))));
+                    items.push(ins(Ins::Alu2(Alu2::Add, Loc::R16(R16::SI), Src::Loc(Loc::R16(R16::BX)))));
+                    items.push(ins(Ins::Alu2(Alu2::Xor, Loc::R16(R16::DI), Src::Loc(Loc::R16(R16::BX)))));
+                    items.push(ins(Ins::Alu2(Alu2::Add, Loc::R16(R16::DI), Src::Imm(1))));
+                } else {
+                    items.push(mov16(R16::BX, 0));
+                    items.push(ins(Ins::Mov(Loc::R8(R8::BL), Src::Loc(Loc::Label(W::B, name.clone())))));
+                    items.push(ins(Ins::Alu2(Alu2::Add, Loc::R16(R16::SI), Src::Loc(Loc::R16(R16::BX)))));
+                    items.push(ins(Ins::Alu2(Alu2::Xor, Loc::R16(R16::DI), Src::Loc(Loc::R16(R16::BX)))));
+                    items.push(ins(Ins::Alu2(Alu2::Add, Loc::R16(R16::DI), Src::Imm(3))));
+                }
+            }
+        }
+        let p = Program { data, items };
+        let text = p.render_plain().text;
+        let sets = p.data.iter().filter(|d| matches!(d, DataItem::Set(_))).count();
+        rep.distinct_str(&format!("labelprog|{}|{}", ndef, sets));
+        crate::c08::check_program_sig(rep, &p, &text, if core { Some(format!("labelprog|{}", i)) } else { None }, true, "data-labels-under-set", 2000, 8000, "ea:label-program");
+    });
+    rep.count("whole programs addressing data labels defined under several `set` directives", n as u64);
+}
+
 pub fn run(rep: &Report) {
+    run_label_programs(rep, 24, true, 0xC04);
+    run_label_programs(rep, if rep.thorough() { 3000 } else { 60 }, false, rep.seed ^ 0x4C);
     run_forms(rep, 3, true, 0xC04);
     run_source(rep, 4, true, 0xC04);
     run_labels(rep, 1536, true, 0xC04);
